@@ -93,6 +93,9 @@ func (t Translator) objFromArraiDict(v rel.Dict) (map[string]interface{}, error)
 			return nil, err
 		}
 		keystr, is := keydata.(string)
+		if _, empty := key.(rel.EmptySet); empty {
+			keystr, is = "", true // the empty string is the empty set
+		}
 		if !is {
 			return nil, fmt.Errorf("object keys must be strings, not %s", rel.ValueTypeAsString(key))
 		}
